@@ -105,7 +105,7 @@ pub fn run(ctx: &Ctx) -> Report {
     rep.assumptions.push("a null read back in a non-nullable string column counts as the (valid) empty string".into());
     let mut st = Stats::new();
     let max_ops = ctx.tier.pick(14, 40);
-    let v = search(ctx, "seq", ctx.tier.pick(16_000, 200_000), || seq::seq_case(W_KEYS, max_ops), |c: &SeqCase, st| {
+    let v = search(ctx, "seq", ctx.tier.pick(80_000, 800_000), || seq::seq_case(W_KEYS, max_ops), |c: &SeqCase, st| {
         st.eval();
         if st.wants_sample() && c.ops.len() > 5 && st.evaluations % 29 == 2 {
             st.sample(json!({"ops": c.ops.iter().map(|o| o.kind()).collect::<Vec<_>>()}));
